@@ -312,10 +312,10 @@ class Ctx(object):
                 if v.where is not None and 'witness by evaluation' not in (v.note or ''):
                     try:
                         rm = solve.robust_model(out, oracle, v.where, assum, syms, min(self.timeout_ms, 30000))
-                        if rm is None:
+                        if rm is None and len(syms) <= 80:
                             # a deviation of size 1 may need large entries (e.g. a value that the code treats as zero because it is below an absolute
                             # tolerance, multiplied back up by a later factor): widen the box before settling for a model with a tiny deviation
-                            rm = solve.robust_model(out, oracle, v.where, assum, syms, min(self.timeout_ms, 20000), box=10 ** 10)
+                            rm = solve.robust_model(out, oracle, v.where, assum, syms, min(self.timeout_ms, 8000), box=10 ** 10)
                     except Exception:
                         rm = None
                 if rm is not None:
